@@ -220,13 +220,13 @@ type Deriv struct {
 	p       *Prog
 	shallow bool
 	stop    map[ssa.Value]bool
-	home   *ssa.Function
-	upSeen map[*ssa.Parameter]bool
-	depth  int
-	seen   map[ssa.Value]bool
-	Nodes  []ssa.Value
-	writes map[*ssa.Function]writesIndex
-	binds  map[*ssa.Parameter][]ssa.Value
+	home    *ssa.Function
+	upSeen  map[*ssa.Parameter]bool
+	depth   int
+	seen    map[ssa.Value]bool
+	Nodes   []ssa.Value
+	writes  map[*ssa.Function]writesIndex
+	binds   map[*ssa.Parameter][]ssa.Value
 	// Opaque: calls whose arguments were not followed (unknown callees)
 	Opaque []ssa.CallInstruction
 }
